@@ -1,6 +1,10 @@
 package include
 
-import "github.com/juev/hledger-lsp/internal/ast"
+import (
+	"sort"
+
+	"github.com/juev/hledger-lsp/internal/ast"
+)
 
 type ErrorKind int
 
@@ -47,6 +51,32 @@ func NewResolvedJournal(primary *ast.Journal) *ResolvedJournal {
 		Primary: primary,
 		Files:   make(map[string]*ast.Journal),
 	}
+}
+
+// OrderedFiles returns the included journals in FileOrder, followed by any file missing from
+// FileOrder in path order, so that callers never depend on map iteration order.
+func (r *ResolvedJournal) OrderedFiles() []*ast.Journal {
+	result := make([]*ast.Journal, 0, len(r.Files))
+	listed := make(map[string]bool, len(r.FileOrder))
+	for _, path := range r.FileOrder {
+		if j, ok := r.Files[path]; ok && !listed[path] {
+			listed[path] = true
+			result = append(result, j)
+		}
+	}
+	if len(listed) < len(r.Files) {
+		var rest []string
+		for path := range r.Files {
+			if !listed[path] {
+				rest = append(rest, path)
+			}
+		}
+		sort.Strings(rest)
+		for _, path := range rest {
+			result = append(result, r.Files[path])
+		}
+	}
+	return result
 }
 
 func (r *ResolvedJournal) AllTransactions() []ast.Transaction {
